@@ -38,6 +38,7 @@ def run(cx, chk):
     chk.rule("C14.R1", "cursor/link table: one cursor per method, advanced through the matching link, yields the node it pointed at")
     chk.rule("C14.R2", "countdown: Some paths decrement len by exactly 1 under len != 0; None paths store nothing; size_hint/count exact; ExactSize+Fused for all")
     chk.rule("C14.R3", "constructors set len/ptr/end from map.len()/(*head).next/(*tail).prev; per-list accessors delegate to the list their name says")
+    chk.rule("C14.R5", "the countdown the iterators start from (map.len()) equals the number of linked nodes whenever user code can observe the cache: at every eviction-callback site every node is linked iff indexed")
     chk.rule("C14.R4", "Keys*/Values* project the key/val component of the wrapped iterator, same direction")
     for cfg, F in cx.cfgs():
         iters = api.iterator_heads(F)
@@ -58,6 +59,7 @@ def run(cx, chk):
                     chk.ob("C14.R2", "%s:%s|%s" % (cfg, name, tr.split("::")[-1]), "implemented")
         constructors(cx, chk, cfg, F)
         accessors(cx, chk, cfg, F)
+        countdown_source(cx, chk, cfg, F)
 
 
 def impl_method(F, head, trait, method):
@@ -235,3 +237,34 @@ def accessors(cx, chk, cfg, F):
                         short, f["name"], fld, meth, [(e["q"].split("::")[-1], fmt_val(e["args"][0])[:30] if e["args"] else "") for e in ent]),
                         f["span"]["file"], f["span"]["lo"], f["q"], None, cfg)
     chk.floor("C14.R3", "per-list accessors in %s" % cfg, n, 60)
+
+
+def countdown_source(cx, chk, cfg, F):
+    """iterators walk the list guided only by map.len(): list and index must agree at every point where a user callback (which may
+    unwind and leave the cache observable) runs"""
+    from .lib import ntrun
+    from .lib.absint import fmt_val
+    RAW = api.CACHES["RawLRU"]
+    n = 0
+    bad = 0
+    for f in api.roots(F):
+        im = F.impl_of(f)
+        if not im or im["self_head"] != RAW or ntrun.is_teardown(f):
+            continue
+        for f_, p, w in ntrun.walk(cx, cfg, only=lambda g: g["path"] == f["path"]):
+            for (i, e, kind, snap) in w.snapshots:
+                if kind != "cb":
+                    continue
+                n += 1
+                for node, st in snap.items():
+                    if st.kind in ("unknown", "sentinel") or st.own != "raw":
+                        continue
+                    L, I = isinstance(st.link, tuple), isinstance(st.index, tuple)
+                    if L != I:
+                        bad += 1
+                        g = F.fns.get(e.get("fn")) or f
+                        chk.violation("C14.R5", "%s|%s" % (f["q"], st.src.split("#")[0]),
+                                      "the eviction callback runs while node %s is linked=%s indexed=%s: if it unwinds, iterators (which count map.len() nodes along the list) yield a non-entry or skip one"
+                                      % (fmt_val(node), L, I), g["span"]["file"], e.get("ln"), g["q"], ["root " + f["q"]], cfg)
+    if not bad:
+        chk.ob("C14.R5", cfg + ":callback-sites", "list and index agree at %d callback site visits" % n)
